@@ -656,7 +656,13 @@ func (tr *trans) applyContract(fc *FuncContract, sig *types.Signature, key strin
 				label = fmt.Sprint(np)
 			}
 			g := implies(reach, env.elabBool(it.E))
-			tr.oblige("pre", fmt.Sprintf("%s[%s]@%s", short, label, tr.srcText(pos)), g, pos)
+			// a callee may declare its preconditions to be obligations only for callers that opt in
+			// (e.g. the lock discipline of sync: `opt pre_only_if=locks` / caller `opt locks`)
+			if need := fc.Opts["pre_only_if"]; need == "" || (tr.fc != nil && tr.fc.Opts[need] == "true") {
+				tr.oblige("pre", fmt.Sprintf("%s[%s]@%s", short, label, tr.srcText(pos)), g, pos)
+			} else {
+				tr.note("preconditions of " + key + " are assumed in functions that do not opt in with `opt " + need + "`")
+			}
 			tr.vc.assume(g)
 		}
 	}
